@@ -257,10 +257,15 @@ def run_derived(rng, thorough, out):
             continue
         rec = {"tag": tag, "vs": [[fr(x) for x in col] for col in v.T], "els": [[int(x) for x in col] for col in e.T],
                "dom": [int(d) for d in dom]}
-        r = g.refine()
+        try:
+            r, b = g.refine(), g.barycentric_refinement
+        except Exception as ex:
+            out["failures"].append({"signature": "Grid.refine/barycentric_refinement:raises-on-valid-grid",
+                                    "what": "refinement of an accepted grid raised %s" % type(ex).__name__,
+                                    "data": {"els": rec["els"], "nv": int(v.shape[1])}})
+            continue
         rec["refine"] = {"vs": [[fr(x) for x in col] for col in r.vertices.T],
                          "els": [[int(x) for x in col] for col in r.elements.T], "dom": [int(d) for d in r.domain_indices]}
-        b = g.barycentric_refinement
         rec["bary"] = {"vs": [[fr(x) for x in col] for col in b.vertices.T],
                        "els": [[int(x) for x in col] for col in b.elements.T], "dom": [int(d) for d in b.domain_indices]}
         segs = sorted(set(int(x) for x in rng.choice(4, int(rng.integers(1, 4)), replace=False)))
@@ -445,7 +450,13 @@ def check_derived(g, name, fails, counter, rng):
     A = area_vec(g)
     closed = not g.edge_on_boundary.any()
     manifold = all(len(t) <= 2 for t in g.edge_neighbors)
-    for kind, child, per in (("refine", g.refine(), 4), ("barycentric_refinement", g.barycentric_refinement, 6)):
+    children = []
+    for kind, fn, per in (("refine", lambda: g.refine(), 4), ("barycentric_refinement", lambda: g.barycentric_refinement, 6)):
+        try:
+            children.append((kind, fn(), per))
+        except Exception as ex:
+            bad("Grid.%s:raises-on-valid-grid" % kind, "%s raised %s" % (kind, type(ex).__name__))
+    for kind, child, per in children:
         counter[0] += 1
         check_grid_relations(child, name + "/" + kind, fails, counter)
         B = area_vec(child)
@@ -557,9 +568,14 @@ def run_search(rng, thorough, out):
             dom[0] = 0
             if r == 0:
                 vr = M.affine(vr, rng)
-            g = Grid(vr, er, dom)
-            check_grid_relations(g, name, fails, counter)
-            check_derived(g, name, fails, counter, rng)
+            try:
+                g = Grid(vr, er, dom)
+                check_grid_relations(g, name, fails, counter)
+                check_derived(g, name, fails, counter, rng)
+            except Exception as ex:
+                import traceback
+                fails.append({"signature": "Grid:exception-on-valid-mesh", "what": "%s on %s: %s" % (
+                    type(ex).__name__, name, traceback.format_exc()[-600:]), "data": {"mesh": name}})
     out["search_evals"] = counter[0]
 
 
